@@ -1066,6 +1066,12 @@ pub fn do_expansion(sh: &mut Shell, tokens: &mut types::Tokens) {
     }
 
     expand_alias(sh, tokens);
+    do_expansion_of_words(sh, tokens);
+}
+
+/// Expansions of words that are not a command line, e.g. the list of
+/// a `for` loop: none of them is a command name, so none is an alias.
+pub fn do_expansion_of_words(sh: &mut Shell, tokens: &mut types::Tokens) {
     expand_home(tokens);
     expand_env(sh, tokens);
     expand_brace(tokens);
